@@ -195,18 +195,25 @@ def agent_of(c, agents):
     return None
 
 
-def check_conversion(ctx, W, S0, plan, final_seq, agents, validate, ops):
+def check_conversion(ctx, W, S0, plan, final_seq, agents, validate, ops, reuse=None):
+    """reuse: (domain, converter) of an earlier conversion whose domain object was revised in place meanwhile"""
     fixture = isinstance(W, C.FixtureWorld)
+    from pddl_plus_parser.multi_agent import PlanConverter, MultiAgentTrajectoryExporter
     try:
-        d, p, s0 = C.lib_world(ctx, W, None if fixture else S0)
+        if reuse:
+            d = reuse[0]
+            p = C.parse_problem(ctx, W.problem_text(S0), d, "problem-revised.pddl")
+        else:
+            d, p, s0 = C.lib_world(ctx, W, None if fixture else S0)
     except Exception as e:
         raise Violation("C15/generated-input-rejected", "DomainParser/ProblemParser", f"{type(e).__name__}: {e}")
-    from pddl_plus_parser.multi_agent import PlanConverter, MultiAgentTrajectoryExporter
     text = render_plan(plan, ops)
     path = C.put(ctx, "plan.solution", text)
     ctx.log("input", W.dom_text_plain, sorted(S0[0])[:60], sorted(S0[1].items())[:60], text, tuple(agents), validate)
-    conv = PlanConverter(d)
-    site = "PlanConverter.convert_plan"
+    conv = reuse[1] if reuse else PlanConverter(d)
+    site = "PlanConverter.convert_plan"  # (also for the re-used converter: the recorded findings are matched by site)
+    if reuse:
+        ctx.note("this conversion re-used the converter of an earlier one; the model was revised in place in between")
     import pddl_plus_parser.multi_agent.single_agent_plan_converter as conv_mod
     formed = []
     orig_apply = conv_mod.apply_actions
@@ -332,6 +339,28 @@ def check_conversion(ctx, W, S0, plan, final_seq, agents, validate, ops):
             raise Violation("C15/joint-plan-roundtrip-differs", "export_plan -> parse_plan",
                             f"step {i}: {[str(o) for o in t.joint_action]} vs {names}")
     ctx.steps += len(plan)
+    # ---- history: the model is revised in place (an effect is added to an action, as a learner does), then the SAME
+    # converter converts the plan again - as far as it is still valid - and must respect the action as it is now
+    if not fixture and not reuse and ops.chance(1, 3):
+        r = C.revise_model(ctx, W, d, ops, kinds=("add_effect",))
+        if r:
+            W2, what = r
+            cur, plan2 = S0, []
+            for c in plan:
+                try:
+                    if not interp.applicable(cur, W2.action(c[0]), c[1], W2.D, W2.objs):
+                        break
+                    nxt, _ = interp.successor(cur, W2.action(c[0]), c[1], W2.D, W2.objs)
+                except (interp.Inconsistent, interp.Undefined):
+                    break
+                if interp.too_large(nxt):
+                    break
+                plan2.append(c)
+                cur = nxt
+            if plan2:
+                ctx.note(f"revision: {what}")
+                ctx.probes["conversion_after_revision"] += 1
+                check_conversion(ctx, W2, S0, plan2, cur, agents, validate, ops, reuse=(d, conv))
 
 
 def describe(ctx, W, plan, S0):
